@@ -61,13 +61,19 @@ func c13ReadKinds() []string {
 }
 
 const c13Forever = "not-obtained-forever"
+const c13Hang = "hangs-until-the-client-gives-up"
 
 // c13Kinds lists the fault kinds of a store operation, simplest first.
 func c13Kinds(op string) []string {
 	switch op {
 	case "GET":
 		return c13ReadKinds()
-	case "SET", "DEL", "PING", "RELEASE", "REFRESH":
+	case "PING":
+		// the third kind: the ping neither succeeds nor fails ("times out"); the request is given up by
+		// its client after 2.5 s of real time (the only real-time wait of this check: an answer that
+		// arrives earlier is judged as it is, no answer by then is the handler still waiting — admissible)
+		return []string{"err-before", "lost-reply", c13Hang}
+	case "SET", "DEL", "RELEASE", "REFRESH":
 		return []string{"err-before", "lost-reply"}
 	case "OBTAIN":
 		return []string{"err-before", "lost-reply", "not-obtained-once", c13Forever}
@@ -312,6 +318,7 @@ type c13Tape struct {
 const c13ObtainRun = 3
 
 type c13Run struct {
+	cancelCur context.CancelFunc
 	obtainRun int
 	tape      *c13Tape
 	nPts      int
@@ -405,6 +412,15 @@ func (r *c13Run) intercept(call *world.StoreCall) *world.StoreFault {
 	case kind == "lost-reply":
 		f.AfterErr = errC13After
 		deliver()
+	case kind == c13Hang:
+		f.Hang = true
+		deliver()
+		if cancel := r.cancelCur; cancel != nil {
+			go func() {
+				time.Sleep(2500 * time.Millisecond)
+				cancel()
+			}()
+		}
 	case kind == "missing":
 		f.Missing = true
 		deliver()
@@ -535,10 +551,18 @@ func (r *c13Run) do(what string, req *world.Req, useJar bool) *c13Req {
 		q.preCookie = r.b.Jar.Header("http", c13Host, "/")
 	}
 	var resp *world.Resp
-	if useJar {
-		resp = r.b.Do(req)
+	if hr, perr := req.Parse(); perr != nil {
+		resp = &world.Resp{Status: 400, ParseErr: perr, Header: http.Header{}}
 	} else {
-		resp = world.Serve(r.px.H, req)
+		// (the request's context is cancellable: a store operation that hangs is ended by the client giving up)
+		ctx, cancel := context.WithCancel(context.Background())
+		r.cancelCur = cancel
+		resp = world.ServeHTTP(r.px.H, hr.WithContext(ctx))
+		r.cancelCur = nil
+		cancel()
+		if useJar {
+			r.b.Jar.SetCookies(r.b.Scheme, r.b.Host, pathOf(req.Target), resp.Header)
+		}
 	}
 	r.cur = nil
 	if d, ok := resp.Panic.(explore.Divergence); ok {
